@@ -139,6 +139,10 @@ def handleLd (st : State) : List String → Option (State × String)
     let (st1, _) := step st (.recv ifid r)
     let (st2, out) := step st1 (.timeout ifid)
     some (st2, renderOut out)
+  | ["ohp", b] => do
+    let b ← b.toNat?
+    let (st', out) := step st (.ohp b)
+    some (st', renderOut out)
   | ["pkt", a, b] => do
     let a ← a.toNat?
     let b ← b.toNat?
